@@ -138,7 +138,7 @@ theorem modVotes_spec (l : Ledger) (acc : NeoAcc) (value : Int) (isNew : Bool) (
 `votesChanged` is untouched. -/
 theorem modVotes_false (l : Ledger) (acc : NeoAcc) (value : Int) (isNew : Bool) (l1 : Ledger)
     (h : modVotes l acc value isNew = (l1, false)) :
-    sameCore l l1 ∧ ∃ c, acc.vote = some c ∧ get l.cands c = none := by
+    sameCore l l1 ∧ l1.events = l.events ∧ ∃ c, acc.vote = some c ∧ get l.cands c = none := by
   unfold modVotes at h
   simp only [] at h
   split at h
@@ -147,7 +147,7 @@ theorem modVotes_false (l : Ledger) (acc : NeoAcc) (value : Int) (isNew : Bool) 
     split at h
     · rename_i hg
       injection h with h1 _; subst h1
-      exact ⟨⟨rfl, rfl, rfl, rfl, rfl, rfl, rfl⟩, c, hv, hg⟩
+      exact ⟨⟨rfl, rfl, rfl, rfl, rfl, rfl, rfl⟩, rfl, c, hv, hg⟩
     · split at h
       · injection h with _ h2; simp at h2
       · split at h
@@ -231,18 +231,19 @@ theorem neoInc_ok (e : Env) (l : Ledger) (si : Option NeoAcc) (amt : Int) (cb : 
 
 /-- a failing NEO.increaseBalance leaves everything the invariant reads untouched. -/
 theorem neoInc_fail (e : Env) (l : Ledger) (si : Option NeoAcc) (amt : Int) (cb : Option Int)
-    (hok : (neoInc e l si amt cb).ok = false) : sameCore l (neoInc e l si amt cb).l := by
+    (hok : (neoInc e l si amt cb).ok = false) :
+    sameCore l (neoInc e l si amt cb).l ∧ (neoInc e l si amt cb).l.events = l.events := by
   by_cases hguard : neoGuard (si.getD {}).bal amt cb
   · have : neoInc e l si amt cb = ⟨l, false, si, none⟩ := by
       unfold neoInc; simp only []
       rw [if_pos (by simpa [neoGuard] using hguard)]
-    rw [this]; exact sameCore.rfl' l
+    rw [this]; exact ⟨sameCore.rfl' l, rfl⟩
   · cases hd : distributeGas e l (si.getD {}) with
     | none =>
       have : neoInc e l si amt cb = ⟨l, false, si, none⟩ := by
         unfold neoInc; simp only []
         rw [if_neg (by simpa [neoGuard] using hguard), hd]
-      rw [this]; exact sameCore.rfl' l
+      rw [this]; exact ⟨sameCore.rfl' l, rfl⟩
     | some r =>
       obtain ⟨acc1, g⟩ := r
       by_cases h0 : amt = 0
@@ -255,7 +256,7 @@ theorem neoInc_fail (e : Env) (l : Ledger) (si : Option NeoAcc) (amt : Int) (cb 
             have : neoInc e l si amt cb = ⟨l1, false, si, none⟩ := by
               unfold neoInc; simp only []
               rw [if_neg (by simpa [neoGuard] using hguard), hd]; simp only [h0, if_false, hm]
-            rw [this]; exact (modVotes_false l acc1 amt false l1 hm).1
+            rw [this]; exact ⟨(modVotes_false l acc1 amt false l1 hm).1, (modVotes_false l acc1 amt false l1 hm).2.1⟩
 
 theorem neoInc_store (e : Env) (l : Ledger) (a : Nat) (amt : Int) (cb : Option Int)
     (hv : VotesOK l.neo l.cands l.voters) (hz : amt = 0 → (get l.neo a).isSome = true)
